@@ -81,14 +81,13 @@ Definition hb_Ainv : mat := tabm Dy Dk (mmul Dy hb_Lam (Ak A)).          (* Lamb
 Definition hb_ai (i : nat) : vec := fun a => hb_Ainv a i.
 Definition hb_aM (i : nat) : vec := vmat Dy (hb_ai i) M.                  (* a_i' M *)
 Definition hb_ayb (ys : seq vec) (i : nat) : vec := fun n => dot Dy (hb_ai i) (vsub (nth vzero ys n) b).
+(* homoscedastic term: p_x.integrate("(Ax+a)'(Bx+b)") with A = -Lambda M, a = Lambda (y_n - b), B = -M, b = y_n - b;
+   the coefficient vectors are per observation n, a one-component p_x is broadcast (component bidx (uR p) n) *)
 Definition hb_homo (p : measure) (ys : seq vec) (n : nat) : F :=
-  let N := size ys in
+  let p1 := prepare p in let rp := bidx (uR p) n in
   let LM := tabm Dy Dx (mmul Dy hb_Lam M) in
-  let Am := M3 1 Dy (fun _ => mopp LM) in
-  let av := V2 N (fun k => mvec Dy hb_Lam (vsub (nth vzero ys k) b)) in
-  let Bm := M3 1 Dy (fun _ => mopp M) in
-  let bv := V2 N (fun k => vsub (nth vzero ys k) b) in
-  int_quadratic_inner p Am av Bm bv n.
+  let yb := vsub (nth vzero ys n) b in
+  E_quadratic_inner Dx (getmu p1 rp) (getS p1 rp) Dy (mopp LM) (mvec Dy hb_Lam yb) (mopp M) yb.
 Definition hb_final (p : measure) (ys : seq vec) (het kq : nat -> vec) (nln2 : nat) (n : nat) : LS :=
   emb LS (- half F * (hb_homo p ys n - sumn Dk (fun i => het i n) + sumn Dk (fun i => kq i (bidx (uR p) n))))
   - het_hS0 LS Dy Da A - hln LS 2%:R *+ nln2 - hl2p LS *+ Dy.
